@@ -7,6 +7,7 @@ package main
 // predicts (which violate the clause by the solver's evaluation).
 
 import (
+	"time"
 	"encoding/json"
 	"fmt"
 	"go/types"
@@ -583,7 +584,20 @@ func (e *Engine) searchReplay(sr *SolveResult, rf *replayFile, timeoutMs int) bo
 	if o.Pos == "" {
 		return false
 	}
+	// bounded unrolling multiplies the work of nested loops: only small functions
+	// are searched (the dispatcher and other large functions are not)
+	fn := e.funcs[fr.Name]
+	if fn == nil || len(fn.Blocks) > 120 || e.loopCount(fn) > 3 {
+		return false
+	}
+	deadline := time.Now().Add(60 * time.Second)
+	if timeoutMs > 5000 {
+		timeoutMs = 5000
+	}
 	for _, k := range []int{2, 4} {
+		if time.Now().After(deadline) {
+			return false
+		}
 		r2, err := e.GenerateSearch(fr.Name, fr.Sweep, k)
 		if err != nil || r2 == nil {
 			return false
@@ -594,7 +608,7 @@ func (e *Engine) searchReplay(sr *SolveResult, rf *replayFile, timeoutMs int) bo
 				continue
 			}
 			tried++
-			if tried > 12 {
+			if tried > 8 || time.Now().After(deadline) {
 				break
 			}
 			s2 := solveOblig(r2, o2, timeoutMs, false)
@@ -611,4 +625,17 @@ func (e *Engine) searchReplay(sr *SolveResult, rf *replayFile, timeoutMs int) bo
 		}
 	}
 	return false
+}
+
+// loopCount: number of back edges in the function's control-flow graph.
+func (e *Engine) loopCount(fn *ssa.Function) int {
+	n := 0
+	for _, b := range fn.Blocks {
+		for _, s := range b.Succs {
+			if s.Dominates(b) {
+				n++
+			}
+		}
+	}
+	return n
 }
